@@ -108,7 +108,7 @@ func (anchors) Run(context.Context) error                           { return nil
 // ---- part 1: readiness ----
 
 type readyScen struct {
-	issuer    byte // 'o' ok, 'f' fail, 'p' park until released then ok, 'q' park then fail
+	issuer    byte // 'o' ok, 'f' fail, 'p' park until released then ok, 'q' park then fail, 'c' wait for the request's context (Run's is cancelled by another thread) and return its error
 	getters   int
 	ready     bool
 	ctxCancel bool // Ready's context gets cancelled by another thread
@@ -141,6 +141,9 @@ func mkReady(s readyScen) *mc.Exec {
 				switch s.issuer {
 				case 'p', 'q':
 					release.Recv()
+				case 'c':
+					mc.Twin(ctx.Done()).Recv()
+					return nil, ctx.Err()
 				}
 				if s.issuer == 'f' || s.issuer == 'q' {
 					return nil, errors.New("issuer down")
@@ -150,11 +153,13 @@ func mkReady(s readyScen) *mc.Exec {
 			},
 		})
 		ctx, cancel := mc.CtxWithCancel(context.Background())
-		_ = cancel
 		mc.GoNamed("run", func() {
 			runErr = sp.Run(ctx)
 			runRet = true
 		})
+		if s.issuer == 'c' {
+			mc.GoNamed("runcancel", func() { cancel() })
+		}
 		if s.ready {
 			rctx, rcancel := mc.CtxWithCancel(context.Background())
 			mc.GoNamed("ready", func() {
@@ -539,7 +544,7 @@ func checkPublished(dir string, cur *x509.Certificate, ca []byte) string {
 
 func scenarios() []hx.Scenario {
 	var out []hx.Scenario
-	for _, iss := range []byte{'o', 'f', 'p', 'q'} {
+	for _, iss := range []byte{'o', 'f', 'p', 'q', 'c'} {
 		for g := 0; g <= 2; g++ {
 			for _, rd := range []bool{false, true} {
 				for _, cc := range []bool{false, true} {
